@@ -356,6 +356,12 @@ func genC03(o *Out, r *rand.Rand, thorough bool) {
 			o.Count("history:repetition-on-a-fork")
 		}
 	}
+	// ... and the weaker side completes the third occurrence itself (a rook against a queen: the draw is worth more than anything else)
+	for _, tail := range [][]string{{"fork"}, {}} {
+		emit("full-static", "q6k/8/8/8/8/8/8/1R4K1 b - - 0 1", append([]string{"m:h8g8", "m:b1c1", "m:g8h8", "m:c1b1", "m:h8g8", "m:b1c1", "m:g8h8"}, tail...),
+			[]string{"s:1:" + fullWin + ":0", "s:2:" + fullWin + ":0"})
+		o.Count("history:repetition-wanted-by-the-weaker-side")
+	}
 	// draws that arise exactly at the search horizon (capture into insufficient material, the clock
 	// reaching 100, a third occurrence completed by the last ply)
 	for _, h := range []struct {
